@@ -14,10 +14,10 @@ pub fn encode_doc(doc: &Value) -> Vec<u8> {
     let mut resp = Map::new();
     resp.insert("protocol".into(), json!("3.0"));
     resp.insert("server".into(), json!("prod"));
-    if let Some(ds) = doc.get("daystart") {
+    if let Some(ds) = doc.get("daystart").and_then(|x| x.get(0)) {
         if ds.is_object() {
             let mut d = Map::new();
-            if let Some(n) = ds.get("days").and_then(|x| x.as_u64()) {
+            if let Some(n) = ds.get("days").and_then(|x| x.get(0)).and_then(|x| x.as_u64()) {
                 d.insert("elapsed_days".into(), json!(n));
             }
             d.insert("elapsed_seconds".into(), json!(4242));
@@ -36,7 +36,7 @@ pub fn encode_doc(doc: &Value) -> Vec<u8> {
                 }
             }
         }
-        if let Some(uc) = a.get("uc") {
+        if let Some(uc) = a.get("uc").and_then(|x| x.get(0)) {
             if uc.is_object() {
                 let mut u = Map::new();
                 u.insert("status".into(), uc["status"].clone());
